@@ -1,9 +1,9 @@
 import B6.Model.Bits
-import Std.Tactic.BVDecide
 /-!
 # Lemmas for the string packings of `B6.Model.Bits` (GB postcodes, UK ONS codes)
 
-Kernel-only except `ons_fields` (three 64-bit field extractions, `bv_decide`).
+and kernel-only (`toNat` + `omega`) proofs of every BitVec packing of `B6.Model.Bits`.
+Everything here audits to propext / Classical.choice / Quot.sound.
 -/
 namespace B6.Lemmas.Bits
 open B6.Model.Bits
@@ -110,6 +110,462 @@ theorem postcode_roundtrip (s : List Char)
     have hp : 64 ^ (normalizePostcode s).length ≤ 64 ^ 7 := Nat.pow_le_pow_right (by omega) h7
     omega
 
+
+/-! ## kernel-only toolkit for the 64-bit packings: `toNat` + `omega` -/
+
+theorem or_toNat {w : Nat} (x y : BitVec w) (k a : Nat) (hx : x.toNat = 2 ^ k * a) (hy : y.toNat < 2 ^ k) :
+    (x ||| y).toNat = 2 ^ k * a + y.toNat := by
+  rw [BitVec.toNat_or, hx, ← Nat.two_pow_add_eq_or_of_lt hy]
+theorem and_mask_toNat {w : Nat} (x m : BitVec w) (k : Nat) (hm : m.toNat = 2 ^ k - 1) :
+    (x &&& m).toNat = x.toNat % 2 ^ k := by
+  rw [BitVec.toNat_and, hm, Nat.and_two_pow_sub_one_eq_mod]
+theorem shl_toNat {w : Nat} (x : BitVec w) (n : Nat) : (x <<< n).toNat = (x.toNat * 2 ^ n) % 2 ^ w := by
+  rw [BitVec.toNat_shiftLeft, Nat.shiftLeft_eq]
+theorem shr_toNat {w : Nat} (x : BitVec w) (n : Nat) : (x >>> n).toNat = x.toNat / 2 ^ n := by
+  rw [BitVec.toNat_ushiftRight, Nat.shiftRight_eq_div_pow]
+
+theorem one_shl_toNat (b : BitVec 64) (hb : b.toNat ≤ 63) : (1#64 <<< b).toNat = 2 ^ b.toNat := by
+  rw [BitVec.shiftLeft_eq', shl_toNat]
+  simp only [BitVec.toNat_ofNat, Nat.one_mul]
+  have : 2 ^ b.toNat ≤ 2 ^ 63 := Nat.pow_le_pow_right (by omega) hb
+  omega
+
+theorem mask_toNat (b : BitVec 64) (hb : b.toNat ≤ 63) : ((1#64 <<< b) - 1#64).toNat = 2 ^ b.toNat - 1 := by
+  rw [BitVec.toNat_sub, one_shl_toNat b hb]
+  have : 2 ^ b.toNat ≤ 2 ^ 63 := Nat.pow_le_pow_right (by omega) hb
+  have hpos : 0 < 2 ^ b.toNat := Nat.two_pow_pos _
+  simp; omega
+
+
+/-! ## value type -/
+
+
+
+
+
+theorem bne_false_iff {w : Nat} (a b : BitVec w) : ((a != b) = false) ↔ a.toNat = b.toNat := by
+  simp [bne, BitVec.toNat_inj]
+
+/-- value type: the packed word -/
+theorem vt_word (t v : BitVec 64) (ht : t < 4#64) (hv : v < 0x4000000000000000#64) :
+    ((v <<< 2) ||| t).toNat = 4 * v.toNat + t.toNat := by
+  have hv' : v.toNat < 2 ^ 62 := hv
+  have ht' : t.toNat < 4 := ht
+  have h := or_toNat (v <<< 2) t 2 v.toNat (by rw [shl_toNat]; omega) (by omega)
+  omega
+
+theorem value_type (t v : BitVec 64) (ht : t < 4#64) (hv : v < 0x4000000000000000#64) :
+    ∃ e, encodeValueType t v = some e ∧ decodeValue e = v ∧ decodeValueType e = t := by
+  have hv' : v.toNat < 2 ^ 62 := hv
+  have ht' : t.toNat < 4 := ht
+  have hw := vt_word t v ht hv
+  refine ⟨(v <<< 2) ||| t, ?_, ?_, ?_⟩
+  · have h : (((v <<< 2) >>> 2) != v) = false := by
+      rw [bne_false_iff, shr_toNat, shl_toNat]; omega
+    simp [encodeValueType, h]
+  · apply BitVec.eq_of_toNat_eq
+    unfold decodeValue
+    rw [shr_toNat, hw]; omega
+  · apply BitVec.eq_of_toNat_eq
+    unfold decodeValueType
+    rw [and_mask_toNat _ _ 2 (by decide), hw]; omega
+
+theorem value_type_guard (t v : BitVec 64) :
+    encodeValueType t v = none ↔ ¬ v < 0x4000000000000000#64 := by
+  have hlt := v.isLt
+  unfold encodeValueType
+  constructor
+  · intro h hv
+    have hv' : v.toNat < 2 ^ 62 := hv
+    have hc : (((v <<< 2) >>> 2) != v) = false := by
+      rw [bne_false_iff, shr_toNat, shl_toNat]; omega
+    rw [hc] at h; simp at h
+  · intro h
+    have hv' : ¬ v.toNat < 2 ^ 62 := h
+    have hc : (((v <<< 2) >>> 2) != v) = true := by
+      cases hh : (((v <<< 2) >>> 2) != v) with
+      | true => rfl
+      | false =>
+        rw [bne_false_iff, shr_toNat, shl_toNat] at hh; omega
+    simp [hc]
+
+/-! ## geometry, type + namespace, lat/lng, ONS fields -/
+
+
+
+
+
+theorem beq_iff_toNat {w : Nat} (a b : BitVec w) : ((a == b) = true) ↔ a.toNat = b.toNat := by
+  simp [BitVec.toNat_inj]
+theorem beq_false_iff_toNat {w : Nat} (a b : BitVec w) : ((a == b) = false) ↔ a.toNat ≠ b.toNat := by
+  simp [BitVec.toNat_inj]
+
+/-! geometry -/
+theorem geo_words (l : BitVec 64) (hl : l < 0x4000000000000000#64) :
+    (l <<< 1).toNat = 2 * l.toNat ∧ ((l <<< 2) ||| 1#64).toNat = 4 * l.toNat + 1 ∧
+    ((l <<< 2) ||| 3#64).toNat = 4 * l.toNat + 3 := by
+  have hl' : l.toNat < 2 ^ 62 := hl
+  refine ⟨by rw [shl_toNat]; omega, ?_, ?_⟩
+  · have := or_toNat (l <<< 2) 1#64 2 l.toNat (by rw [shl_toNat]; omega) (by decide)
+    simp at this ⊢; omega
+  · have := or_toNat (l <<< 2) 3#64 2 l.toNat (by rw [shl_toNat]; omega) (by decide)
+    simp at this ⊢; omega
+
+theorem and1 (v : BitVec 64) : (v &&& 1#64).toNat = v.toNat % 2 := and_mask_toNat v 1#64 1 (by decide)
+theorem nat_and2 (n : Nat) : n &&& 2 = 2 * (n / 2 % 2) := by
+  have h1 : n &&& 2 ≤ 2 := Nat.and_le_right
+  have h2 : (n &&& 2) = (n &&& 2) % 2 ^ 2 := (Nat.mod_eq_of_lt (by omega)).symm
+  rw [h2, Nat.and_mod_two_pow]
+  have : n % 2 ^ 2 = 0 ∨ n % 2 ^ 2 = 1 ∨ n % 2 ^ 2 = 2 ∨ n % 2 ^ 2 = 3 := by omega
+  rcases this with h | h | h | h <;> rw [h] <;> simp <;> omega
+
+theorem and2_zero (v : BitVec 64) : ((v &&& 2#64) == 0#64) = (decide (v.toNat / 2 % 2 = 0)) := by
+  have h : (v &&& 2#64).toNat = 2 * (v.toNat / 2 % 2) := by
+    rw [BitVec.toNat_and]; exact nat_and2 v.toNat
+  by_cases hz : v.toNat / 2 % 2 = 0
+  · simp only [hz, decide_true]; rw [beq_iff_toNat, h, hz]; rfl
+  · simp only [hz, decide_false]; rw [beq_false_iff_toNat, h]; simp; omega
+
+theorem geometry_len (e : BitVec 8) (l : BitVec 64) (he : e < 3#8) (hl : l < 0x4000000000000000#64) :
+    ∃ v, encodeGeometry e l = some v ∧ decodeGeometryLen v = l ∧ decodeGeometryEncoding v = e := by
+  have hl' : l.toNat < 2 ^ 62 := hl
+  obtain ⟨w0, w1, w3⟩ := geo_words l hl
+  have he' : e.toNat < 3 := he
+  have h3 : e = 0#8 ∨ e = 1#8 ∨ e = 2#8 := by
+    have : e.toNat = 0 ∨ e.toNat = 1 ∨ e.toNat = 2 := by omega
+    rcases this with h | h | h
+    · left; exact BitVec.eq_of_toNat_eq h
+    · right; left; exact BitVec.eq_of_toNat_eq h
+    · right; right; exact BitVec.eq_of_toNat_eq h
+  unfold encodeGeometry decodeGeometryLen decodeGeometryEncoding
+  rcases h3 with h | h | h <;> subst h
+  · have c1 : ((l <<< 1 &&& 1#64) == 0#64) = true := by rw [beq_iff_toNat, and1, w0]; simp
+    refine ⟨l <<< 1, by simp, ?_, by simp [c1]⟩
+    simp only [c1, if_true]
+    apply BitVec.eq_of_toNat_eq; rw [shr_toNat, w0]; omega
+  · have c1 : (((l <<< 2 ||| 1#64) &&& 1#64) == 0#64) = false := by
+      rw [beq_false_iff_toNat, and1, w1]; simp; omega
+    have c2 : (((l <<< 2 ||| 1#64) &&& 2#64) == 0#64) = true := by
+      rw [and2_zero, w1]; simp; omega
+    refine ⟨(l <<< 2) ||| 1#64, by simp, ?_, by simp [c1, c2]⟩
+    simp only [c1]
+    apply BitVec.eq_of_toNat_eq; simp only [Bool.false_eq_true, if_false]; rw [shr_toNat, w1]; omega
+  · have c1 : (((l <<< 2 ||| 3#64) &&& 1#64) == 0#64) = false := by
+      rw [beq_false_iff_toNat, and1, w3]; simp; omega
+    have c2 : (((l <<< 2 ||| 3#64) &&& 2#64) == 0#64) = false := by
+      rw [and2_zero, w3]; simp; omega
+    refine ⟨(l <<< 2) ||| 3#64, by simp, ?_, by simp [c1, c2]⟩
+    simp only [c1]
+    apply BitVec.eq_of_toNat_eq; simp only [Bool.false_eq_true, if_false]; rw [shr_toNat, w3]; omega
+
+/-! type + namespace -/
+theorem type_ns (t : BitVec 64) (ns : BitVec 16) (ht : t < 8#64) (hns : ns < 8192#16) :
+    splitTypeNs (combineTypeNs t ns) = (t, ns) := by
+  have ht' : t.toNat < 8 := ht
+  have hns' : ns.toNat < 8192 := hns
+  have hc : (combineTypeNs t ns).toNat = 8192 * t.toNat + ns.toNat := by
+    unfold combineTypeNs
+    have := or_toNat ((t <<< 13).setWidth 16) ns 13 t.toNat (by
+      rw [BitVec.toNat_setWidth, shl_toNat]; omega) (by omega)
+    omega
+  unfold splitTypeNs
+  ext1
+  · apply BitVec.eq_of_toNat_eq
+    simp only
+    rw [BitVec.toNat_setWidth, shr_toNat, hc]; omega
+  · apply BitVec.eq_of_toNat_eq
+    simp only
+    rw [and_mask_toNat _ _ 13 (by decide), hc]; omega
+
+/-! lat/lng -/
+theorem latlng_id (lat lng : BitVec 32) : latLngFromID (newLatLngID lat lng) = (lat, lng) := by
+  have h1 := lat.isLt
+  have h2 := lng.isLt
+  have hc : (newLatLngID lat lng).toNat = 2 ^ 32 * lat.toNat + lng.toNat := by
+    unfold newLatLngID
+    have := or_toNat ((lat.setWidth 64) <<< 32) (lng.setWidth 64) 32 lat.toNat (by
+      rw [shl_toNat, BitVec.toNat_setWidth]; omega) (by rw [BitVec.toNat_setWidth]; omega)
+    rw [BitVec.toNat_setWidth] at this
+    omega
+  unfold latLngFromID
+  ext1
+  · apply BitVec.eq_of_toNat_eq
+    simp only
+    rw [BitVec.toNat_setWidth, and_mask_toNat _ _ 32 (by decide), shr_toNat, hc]; omega
+  · apply BitVec.eq_of_toNat_eq
+    simp only
+    rw [BitVec.toNat_setWidth, and_mask_toNat _ _ 32 (by decide), hc]; omega
+
+/-! ONS fields -/
+theorem ons_fields (c y m : BitVec 64) (hc : c < 256#64) (hy : y < 256#64) (hm : m < 4294967296#64) :
+    (((c <<< 40 ||| y <<< 32 ||| m) >>> 40) &&& 255#64) = c ∧
+    (((c <<< 40 ||| y <<< 32 ||| m) >>> 32) &&& 255#64) = y ∧
+    ((c <<< 40 ||| y <<< 32 ||| m) &&& 4294967295#64) = m := by
+  have hc' : c.toNat < 256 := hc
+  have hy' : y.toNat < 256 := hy
+  have hm' : m.toNat < 4294967296 := hm
+  have w1 : (c <<< 40 ||| y <<< 32).toNat = 2 ^ 32 * (256 * c.toNat + y.toNat) := by
+    have := or_toNat (c <<< 40) (y <<< 32) 40 c.toNat (by rw [shl_toNat]; omega) (by rw [shl_toNat]; omega)
+    rw [this, shl_toNat]; omega
+  have w : (c <<< 40 ||| y <<< 32 ||| m).toNat = 2 ^ 32 * (256 * c.toNat + y.toNat) + m.toNat :=
+    or_toNat _ m 32 _ w1 (by omega)
+  refine ⟨?_, ?_, ?_⟩ <;> apply BitVec.eq_of_toNat_eq
+  · rw [and_mask_toNat _ _ 8 (by decide), shr_toNat, w]; omega
+  · rw [and_mask_toNat _ _ 8 (by decide), shr_toNat, w]; omega
+  · rw [and_mask_toNat _ _ 32 (by decide), w]; omega
+
+/-! ## 32-bit zigzag -/
+
+
+def zig32 (x : BitVec 32) : BitVec 32 := if x.msb then ~~~(x <<< 1) else x <<< 1
+def zag32 (u : BitVec 32) : BitVec 32 := if u &&& 1#32 ≠ 0#32 then ~~~(u >>> 1) else u >>> 1
+
+theorem sshiftRight31 (x : BitVec 32) :
+    x.sshiftRight 31 = if x.msb then BitVec.allOnes 32 else 0#32 := by
+  ext i hi
+  cases h : x.msb
+  · simp [BitVec.getElem_sshiftRight, h]
+    intro h2
+    have : i = 0 := by omega
+    subst this
+    simpa [BitVec.msb_eq_getLsbD_last] using h
+  · simp only [BitVec.getElem_sshiftRight, h, if_true, BitVec.getElem_allOnes]
+    split
+    · rename_i h2
+      have : i = 0 := by omega
+      subst this
+      simpa [BitVec.msb_eq_getLsbD_last] using h
+    · rfl
+
+theorem zigzagEncode32_eq (x : BitVec 32) : zigzagEncode32 x = zig32 x := by
+  unfold zigzagEncode32 zig32
+  rw [sshiftRight31]
+  cases x.msb
+  · simp
+  · simp only [if_true]; exact BitVec.xor_allOnes
+
+theorem and_one_cases32 (v : BitVec 32) : v &&& 1#32 = 0#32 ∨ v &&& 1#32 = 1#32 := by
+  have : (v &&& 1#32).toNat = v.toNat % 2 := by simp [BitVec.toNat_and]
+  rcases Nat.mod_two_eq_zero_or_one v.toNat with h | h
+  · left; apply BitVec.eq_of_toNat_eq; simp [this, h]
+  · right; apply BitVec.eq_of_toNat_eq; simp [this, h]
+
+theorem neg_and_one32 (v : BitVec 32) :
+    -(v &&& 1#32) = if v &&& 1#32 ≠ 0#32 then BitVec.allOnes 32 else 0#32 := by
+  rcases and_one_cases32 v with h | h <;> rw [h] <;> decide
+
+theorem zigzagDecode32_eq (v : BitVec 32) : zigzagDecode32 v = zag32 v := by
+  unfold zigzagDecode32 zag32
+  rw [neg_and_one32]
+  split
+  · exact BitVec.xor_allOnes
+  · simp
+
+theorem and_one_ne_zero_iff32 (v : BitVec 32) : v &&& 1#32 ≠ 0#32 ↔ v.toNat % 2 = 1 := by
+  have e : (v &&& 1#32).toNat = v.toNat % 2 := by simp [BitVec.toNat_and]
+  constructor
+  · intro h
+    rcases and_one_cases32 v with h0 | h1
+    · exact absurd h0 h
+    · rw [← e, h1]; rfl
+  · intro h hz
+    rw [hz] at e; simp at e; omega
+
+theorem msb_iff32 (x : BitVec 32) : x.msb = true ↔ 2 ^ 31 ≤ x.toNat := by
+  rw [BitVec.msb_eq_decide]; simp
+
+theorem zig32_toNat (x : BitVec 32) :
+    (zig32 x).toNat = if 2 ^ 31 ≤ x.toNat then 2 ^ 32 - 1 - (2 * x.toNat) % 2 ^ 32 else (2 * x.toNat) % 2 ^ 32 := by
+  unfold zig32
+  by_cases h : x.msb = true
+  · have h' := (msb_iff32 x).1 h
+    simp only [h, if_true, h', BitVec.toNat_not, BitVec.toNat_shiftLeft, Nat.shiftLeft_eq]
+    omega
+  · have h' : ¬ 2 ^ 31 ≤ x.toNat := fun hh => h ((msb_iff32 x).2 hh)
+    rw [if_neg h, if_neg h']
+    simp only [BitVec.toNat_shiftLeft, Nat.shiftLeft_eq]
+    omega
+
+theorem zag32_toNat (u : BitVec 32) :
+    (zag32 u).toNat = if u.toNat % 2 = 1 then 2 ^ 32 - 1 - u.toNat / 2 else u.toNat / 2 := by
+  unfold zag32
+  by_cases h : u &&& 1#32 ≠ 0#32
+  · have h' := (and_one_ne_zero_iff32 u).1 h
+    rw [if_pos h, if_pos h']
+    simp only [BitVec.toNat_not, BitVec.toNat_ushiftRight, Nat.shiftRight_eq_div_pow]
+  · have h' : ¬ u.toNat % 2 = 1 := fun hh => h ((and_one_ne_zero_iff32 u).2 hh)
+    rw [if_neg h, if_neg h']
+    simp only [BitVec.toNat_ushiftRight, Nat.shiftRight_eq_div_pow]
+
+theorem zigzag32_roundtrip (x : BitVec 32) : zigzagDecode32 (zigzagEncode32 x) = x := by
+  rw [zigzagDecode32_eq, zigzagEncode32_eq]
+  apply BitVec.eq_of_toNat_eq
+  rw [zag32_toNat, zig32_toNat]
+  have := x.isLt
+  split <;> split <;> omega
+
+theorem setWidth_signExtend (x : BitVec 32) : (x.signExtend 64).setWidth 32 = x := by
+  ext i hi
+  simp [BitVec.getLsbD_signExtend, hi]
+  omega
+
+theorem renderer_zigzag32 (x : BitVec 32) :
+    rendererZigzagDecode (rendererZigzagEncode (x.signExtend 64)) = x.signExtend 64 := by
+  unfold rendererZigzagDecode rendererZigzagEncode
+  rw [setWidth_signExtend, zigzag32_roundtrip]
+
+/-! ## bucket header -/
+/-- the bucket header, from the one arithmetic fact that the shifted id still fits 64 bits. -/
+theorem header_core (id tag b t : BitVec 64) (hb : b.toNat ≤ 63) (ht : t.toNat ≤ 63)
+    (hfit : id.toNat / 2 ^ b.toNat * 2 ^ t.toNat < 2 ^ 64) (htag : tag.toNat < 2 ^ t.toNat) :
+    headerUnpackID (bucketForID id b) (headerPack id tag b t) b t = id ∧
+    headerUnpackTag (headerPack id tag b t) t = tag := by
+  have hq : (id >>> b).toNat = id.toNat / 2 ^ b.toNat := by rw [BitVec.ushiftRight_eq', shr_toNat]
+  have hqs : ((id >>> b) <<< t).toNat = 2 ^ t.toNat * (id.toNat / 2 ^ b.toNat) := by
+    rw [BitVec.shiftLeft_eq', shl_toNat, hq, Nat.mod_eq_of_lt hfit, Nat.mul_comm]
+  have hw : (headerPack id tag b t).toNat = 2 ^ t.toNat * (id.toNat / 2 ^ b.toNat) + tag.toNat :=
+    or_toNat _ tag t.toNat _ hqs htag
+  constructor
+  · apply BitVec.eq_of_toNat_eq
+    unfold headerUnpackID bucketForID
+    have hdiv : ((headerPack id tag b t) >>> t).toNat = id.toNat / 2 ^ b.toNat := by
+      rw [BitVec.ushiftRight_eq', shr_toNat, hw, Nat.mul_add_div (Nat.two_pow_pos _), Nat.div_eq_of_lt htag]
+      omega
+    have hle : id.toNat / 2 ^ b.toNat * 2 ^ b.toNat ≤ id.toNat := Nat.div_mul_le_self _ _
+    have hsh : (((headerPack id tag b t) >>> t) <<< b).toNat = 2 ^ b.toNat * (id.toNat / 2 ^ b.toNat) := by
+      rw [BitVec.shiftLeft_eq', shl_toNat, hdiv, Nat.mod_eq_of_lt (by have := id.isLt; omega), Nat.mul_comm]
+    have hbk : (id &&& ((1#64 <<< b) - 1#64)).toNat = id.toNat % 2 ^ b.toNat :=
+      and_mask_toNat _ _ _ (mask_toNat b hb)
+    rw [BitVec.or_comm, or_toNat _ _ b.toNat _ hsh (by rw [hbk]; exact Nat.mod_lt _ (Nat.two_pow_pos _)), hbk]
+    exact Nat.div_add_mod _ _
+  · apply BitVec.eq_of_toNat_eq
+    unfold headerUnpackTag
+    rw [and_mask_toNat _ _ _ (mask_toNat t ht), hw, Nat.mul_add_mod, Nat.mod_eq_of_lt htag]
+
+theorem header_roundtrip (id tag b t : BitVec 64) (hb : b ≤ 63#64) (htb : t ≤ b) (htag : tag < (1#64 <<< t)) :
+    headerUnpackID (bucketForID id b) (headerPack id tag b t) b t = id ∧
+    headerUnpackTag (headerPack id tag b t) t = tag := by
+  have hb' : b.toNat ≤ 63 := hb
+  have htb' : t.toNat ≤ b.toNat := htb
+  have ht' : t.toNat ≤ 63 := by omega
+  apply header_core id tag b t hb' ht'
+  · have hlt := id.isLt
+    have h1 : id.toNat / 2 ^ b.toNat * 2 ^ t.toNat ≤ id.toNat / 2 ^ b.toNat * 2 ^ b.toNat :=
+      Nat.mul_le_mul_left _ (Nat.pow_le_pow_right (by omega) htb')
+    have h2 : id.toNat / 2 ^ b.toNat * 2 ^ b.toNat ≤ id.toNat := Nat.div_mul_le_self _ _
+    omega
+  · have : tag.toNat < (1#64 <<< t).toNat := htag
+    rw [one_shl_toNat t ht'] at this; exact this
+
+theorem header_roundtrip_small_id (id tag b t : BitVec 64) (ht : t ≤ 63#64) (hbt : b < t)
+    (hid : id < (1#64 <<< (64#64 - (t - b)))) (htag : tag < (1#64 <<< t)) :
+    headerUnpackID (bucketForID id b) (headerPack id tag b t) b t = id ∧
+    headerUnpackTag (headerPack id tag b t) t = tag := by
+  have ht' : t.toNat ≤ 63 := ht
+  have hbt' : b.toNat < t.toNat := hbt
+  apply header_core id tag b t (by omega) ht'
+  · -- id < 2^(64 - (t - b))
+    have hs : (64#64 - (t - b)).toNat = 64 - (t.toNat - b.toNat) := by
+      rw [BitVec.toNat_sub, BitVec.toNat_sub]; simp; omega
+    have hid' : id.toNat < 2 ^ (64 - (t.toNat - b.toNat)) := by
+      have : id.toNat < (1#64 <<< (64#64 - (t - b))).toNat := hid
+      rw [one_shl_toNat _ (by rw [hs]; omega), hs] at this; exact this
+    have e1 : 2 ^ (64 - (t.toNat - b.toNat)) = 2 ^ (64 - t.toNat) * 2 ^ b.toNat := by
+      rw [← Nat.pow_add]; congr 1; omega
+    have hq : id.toNat / 2 ^ b.toNat < 2 ^ (64 - t.toNat) := by
+      apply Nat.div_lt_of_lt_mul; rw [Nat.mul_comm, ← e1]; exact hid'
+    have e2 : 2 ^ (64 - t.toNat) * 2 ^ t.toNat = 2 ^ 64 := by
+      rw [← Nat.pow_add]; congr 1; omega
+    calc id.toNat / 2 ^ b.toNat * 2 ^ t.toNat < 2 ^ (64 - t.toNat) * 2 ^ t.toNat :=
+          Nat.mul_lt_mul_of_pos_right hq (Nat.two_pow_pos _)
+      _ = 2 ^ 64 := e2
+  · have : tag.toNat < (1#64 <<< t).toNat := htag
+    rw [one_shl_toNat t ht'] at this; exact this
+
+/-! ## tile ids -/
+
+
+
+
+
+
+
+theorem tile_id (x y z : BitVec 64) (hz : z ≤ 29#64) (hx : x < 1#64 <<< z) (hy : y < 1#64 <<< z) :
+    tileIDToXYZ (tileIDFromXYZ x y z) = (x, y, z) := by
+  have hz' : z.toNat ≤ 29 := hz
+  have hx' : x.toNat < 2 ^ z.toNat := by
+    have : x.toNat < (1#64 <<< z).toNat := hx
+    rw [one_shl_toNat z (by omega)] at this; exact this
+  have hy' : y.toNat < 2 ^ z.toNat := by
+    have : y.toNat < (1#64 <<< z).toNat := hy
+    rw [one_shl_toNat z (by omega)] at this; exact this
+  -- powers of two involved
+  have p1 : 2 ^ z.toNat * 2 ^ z.toNat ≤ 2 ^ 58 := by
+    rw [← Nat.pow_add]; exact Nat.pow_le_pow_right (by omega) (by omega)
+  have p2 : 2 ^ 59 = 2 ^ z.toNat * 2 ^ (59 - z.toNat) := by rw [← Nat.pow_add]; congr 1; omega
+  have p3 : 2 ^ (59 - z.toNat) = 2 ^ z.toNat * 2 ^ (59 - 2 * z.toNat) := by rw [← Nat.pow_add]; congr 1; omega
+  have hpos : 0 < 2 ^ z.toNat := Nat.two_pow_pos _
+  have hyz : y.toNat * 2 ^ z.toNat < 2 ^ z.toNat * 2 ^ z.toNat := Nat.mul_lt_mul_of_pos_right hy' hpos
+  have hlt59 : y.toNat * 2 ^ z.toNat + x.toNat < 2 ^ 59 := by
+    have h1 : (y.toNat + 1) * 2 ^ z.toNat ≤ 2 ^ z.toNat * 2 ^ z.toNat := Nat.mul_le_mul_right _ hy'
+    rw [Nat.succ_mul] at h1
+    omega
+  -- the packed word
+  have h1 : (z <<< 59).toNat = 2 ^ 59 * z.toNat := by rw [shl_toNat]; omega
+  have h2 : (y <<< z).toNat = y.toNat * 2 ^ z.toNat := by
+    rw [BitVec.shiftLeft_eq', shl_toNat]; apply Nat.mod_eq_of_lt; omega
+  have h3 : ((z <<< 59) ||| (y <<< z)).toNat = 2 ^ 59 * z.toNat + y.toNat * 2 ^ z.toNat :=
+    by rw [or_toNat _ _ 59 _ h1 (by rw [h2]; omega), h2]
+  have h3' : ((z <<< 59) ||| (y <<< z)).toNat = 2 ^ z.toNat * (2 ^ (59 - z.toNat) * z.toNat + y.toNat) := by
+    rw [h3, p2, Nat.mul_add, Nat.mul_assoc, Nat.mul_comm y.toNat]
+  have hw : (tileIDFromXYZ x y z).toNat = 2 ^ z.toNat * (2 ^ (59 - z.toNat) * z.toNat + y.toNat) + x.toNat :=
+    or_toNat _ x z.toNat _ h3' hx'
+  have hw59 : (tileIDFromXYZ x y z).toNat = 2 ^ 59 * z.toNat + (y.toNat * 2 ^ z.toNat + x.toNat) := by
+    have e : 2 ^ z.toNat * (2 ^ (59 - z.toNat) * z.toNat + y.toNat) = 2 ^ 59 * z.toNat + y.toNat * 2 ^ z.toNat := by
+      rw [← h3', h3]
+    rw [hw, e, Nat.add_assoc]
+  -- zoom
+  have hzz : (tileIDFromXYZ x y z) >>> 59 = z := by
+    apply BitVec.eq_of_toNat_eq
+    rw [shr_toNat, hw59, Nat.mul_add_div (Nat.two_pow_pos _), Nat.div_eq_of_lt hlt59]; omega
+  unfold tileIDToXYZ
+  simp only [hzz]
+  have hm := mask_toNat z (by omega)
+  refine Prod.ext ?_ (Prod.ext ?_ rfl)
+  · apply BitVec.eq_of_toNat_eq
+    simp only
+    rw [and_mask_toNat _ _ _ hm, hw, Nat.mul_add_mod, Nat.mod_eq_of_lt hx']
+  · apply BitVec.eq_of_toNat_eq
+    simp only
+    rw [and_mask_toNat _ _ _ hm, BitVec.ushiftRight_eq', shr_toNat, hw, Nat.mul_add_div hpos,
+      Nat.div_eq_of_lt hx', Nat.add_zero, p3, Nat.mul_assoc, Nat.mul_add_mod, Nat.mod_eq_of_lt hy']
+
+/-! ## bucket bits for a count -/
+
+theorem ceilLog2_spec (n : Nat) : n ≤ 2 ^ ceilLog2 n ∧ ∀ b, n ≤ 2 ^ b → ceilLog2 n ≤ b := by
+  unfold ceilLog2
+  split
+  · rename_i h; refine ⟨by simp; omega, fun b _ => Nat.zero_le _⟩
+  · rename_i h
+    have hne : n - 1 ≠ 0 := by omega
+    constructor
+    · have := @Nat.lt_log2_self (n - 1)
+      omega
+    · intro b hb
+      have : (n - 1).log2 < b := (Nat.log2_lt hne).2 (by omega)
+      omega
+
+/-- `bucketBitsForCount n` is the smallest `b ≥ 1` with `2^b ≥ n`. -/
+theorem bucketBitsForCount_spec (n : Nat) :
+    1 ≤ bucketBitsForCount n ∧ n ≤ 2 ^ bucketBitsForCount n ∧
+    ∀ b, 1 ≤ b → n ≤ 2 ^ b → bucketBitsForCount n ≤ b := by
+  obtain ⟨h1, h2⟩ := ceilLog2_spec n
+  unfold bucketBitsForCount
+  refine ⟨Nat.le_max_left _ _, ?_, ?_⟩
+  · exact Nat.le_trans h1 (Nat.pow_le_pow_right (by omega) (Nat.le_max_right _ _))
+  · intro b hb hn
+    exact Nat.max_le.2 ⟨hb, h2 b hn⟩
+
 /-! ## ONS codes -/
 
 theorem digitValue_spec (c : Char) (d : Nat) (h : digitValue c = some d) :
@@ -131,13 +587,6 @@ theorem digitValue_spec (c : Char) (d : Nat) (h : digitValue c = some d) :
     · intro hh; subst hh; revert hr; decide
     · intro hh; subst hh; revert hr; decide
   · simp at h
-
-/-- the three fields of an ONS id value are disjoint (64-bit, `bv_decide`). -/
-theorem ons_fields (c y m : BitVec 64) (hc : c < 256#64) (hy : y < 256#64) (hm : m < 4294967296#64) :
-    (((c <<< 40 ||| y <<< 32 ||| m) >>> 40) &&& 255#64) = c ∧
-    (((c <<< 40 ||| y <<< 32 ||| m) >>> 32) &&& 255#64) = y ∧
-    ((c <<< 40 ||| y <<< 32 ||| m) &&& 4294967295#64) = m := by
-  refine ⟨?_, ?_, ?_⟩ <;> bv_decide
 
 theorem atoi_of_digit_head (c : Char) (cs : List Char) (d : Nat) (h : digitValue c = some d) :
     atoi (c :: cs) = (atoiDigits (c :: cs) 0).map fun n => (n : Int) := by
